@@ -10,7 +10,7 @@ MODULE = 'WaveletsVerif.Properties.C16'
 THEOREMS = ['WV.C16.dtype_preserved', 'WV.C16.dtype_mismatch_raises', 'WV.C16.default_dtype_irrelevant', 'WV.C16.abs_dot_le', 'WV.C16.gain_compose',
             'WV.C16G.corr_gain', 'WV.C16G.afb1dOne_gain', 'WV.C16G.dwt_gain', 'WV.C16G.wavedec_gain',
             'WV.C16R.flDot_err', 'WV.C16R.flCorr_err', 'WV.C16R.afb1dOneFl_err', 'WV.C16R.afb1dOne_close', 'WV.C16R.flLevel_approx',
-            'WV.C16R.wavedec_fl_err_gen', 'WV.C16R.wavedec_fl_err']
+            'WV.C16R.wavedec_fl_err_gen', 'WV.C16R.wavedec_fl_err', 'WV.C16S.one_level', 'WV.C16S.pass_rows', 'WV.C16S.pass_cols', 'WV.C16S.dwt2_fl_err', 'WV.C16S.wavedec2_fl_err_gen', 'WV.C16S.wavedec2_fl_err']
 DT = {0: torch.float32, 1: torch.float64}
 EPS32 = float(np.finfo(np.float32).eps)
 
